@@ -603,6 +603,58 @@ fn limits(r: &mut Report, rt: &ConjureRuntime, k: usize) {
     at!(16);
 }
 
+/// bodies whose members have different spellings in a human-readable and a binary encoding
+/// (uuid: text vs 16 bytes; IpAddr: text vs an enum of byte arrays): the JSON and the Smile
+/// rendering written by the matching conjure-serde serializer are valid by construction and
+/// must arrive as the value; the *text* spelling inside a Smile document is not the Smile wire
+/// form of a uuid and must be refused
+#[derive(Serialize, Deserialize, Debug, PartialEq, Clone)]
+pub struct HrInner {
+    ip: std::net::IpAddr,
+    id: conjure_object::Uuid,
+}
+
+#[derive(Serialize, Deserialize, Debug, PartialEq, Clone)]
+pub struct HrBody {
+    id: conjure_object::Uuid,
+    ip: std::net::IpAddr,
+    ids: Vec<conjure_object::Uuid>,
+    inner: HrInner,
+    inners: Vec<HrInner>,
+}
+
+fn hr_bodies(r: &mut Report, rt: &ConjureRuntime) {
+    let id = conjure_object::Uuid::from_u128(0x0123_4567_89ab_cdef_fedc_ba98_7654_3210);
+    let inner = HrInner { ip: "2001:db8::1".parse().unwrap(), id };
+    let v = HrBody { id, ip: "10.1.2.3".parse().unwrap(), ids: vec![id], inner: inner.clone(), inners: vec![inner] };
+    let json = conjure_serde::json::to_vec(&v).unwrap();
+    let smile = conjure_serde::smile::to_vec(&v).unwrap();
+    // the JSON tree (uuids and addresses as text) rendered as Smile by the plain library
+    let text_in_smile = serde_smile::to_vec(&serde_json::from_slice::<serde_json::Value>(&json).unwrap()).unwrap();
+    for (what, ct, body, valid) in [("json", Ct::Json, &json, true), ("smile", Ct::Smile, &smile, true), ("smile-with-text-uuids", Ct::Smile, &text_in_smile, false)] {
+        for s in [script::default_script(body), uniform(body, 1), uniform(body, 7)] {
+            r.states += 1;
+            let h = headers(ct);
+            let runs: Vec<(&str, Result<Result<HrBody, Error>, String>)> = vec![
+                ("blocking", vcommon::catch(|| <StdRequestDeserializer<{ 50 * 1024 * 1024 }> as DeserializeRequest<HrBody, _>>::deserialize(rt, &h, ScriptIter::new(&s)))),
+                ("async", vcommon::catch(|| block_on(<StdRequestDeserializer<{ 50 * 1024 * 1024 }> as AsyncDeserializeRequest<HrBody, _>>::deserialize(rt, &h, ScriptStream::new(&s))))),
+            ];
+            for (flavour, got) in runs {
+                r.evaluations += 1;
+                r.transitions += 1;
+                let case = json!({"kind": "hr-body", "body": what, "flavour": flavour});
+                match (valid, got) {
+                    (_, Err(p)) => r.violation(format!("C06|direct|hr-body|panic|{}|{}", what, flavour), format!("panicked: {}", p), case),
+                    (true, Ok(Ok(g))) if g == v => r.outcome("accepted-with-the-document's-value"),
+                    (true, Ok(other)) => r.violation(format!("C06|direct|hr-body|valid-body-rejected|{}|{}", what, flavour), format!("the {} rendering of {:?} written by conjure-serde arrives as {:?}", what, v, other.map_err(|e| e.cause().to_string())), case),
+                    (false, Ok(Ok(g))) => r.violation(format!("C06|direct|hr-body|invalid-body-accepted|{}|{}", what, flavour), format!("a Smile document spelling its uuids as text is accepted as {:?}", g), case),
+                    (false, Ok(Err(_))) => r.outcome("rejected:INVALID_ARGUMENT"),
+                }
+            }
+        }
+    }
+}
+
 fn byte_strings(r: &mut Report, rt: &ConjureRuntime, max_len: usize) {
     vcommon::enumerate::for_each_word(JSON_SYMBOLS.len(), max_len, |w| {
         let body: String = w.iter().map(|i| JSON_SYMBOLS[*i]).collect();
@@ -635,6 +687,7 @@ pub fn run(args: &Args) -> Report {
         }),
         Box::new(move |r, rt| limits(r, rt, k.min(2))),
         Box::new(move |r, rt| byte_strings(r, rt, if thorough { 4 } else { 3 })),
+        Box::new(move |r, rt| hr_bodies(r, rt)),
         Box::new(move |r, rt| {
             // optional / alias-of-optional / binary deserializers over every Content-Type and script
             for body in [&b"\"x\""[..], b"null", b"\"x\" y", b"\"x", b""] {
@@ -680,6 +733,10 @@ fn replay(path: &str, mut report: Report, rt: &ConjureRuntime) -> Report {
     let v = vcommon::load_replay(path);
     let c = &v["case"];
     report.exhaustive = false;
+    if c["kind"] == "hr-body" {
+        hr_bodies(&mut report, rt);
+        return report;
+    }
     if c["kind"] == "declared-valid" {
         fn one_valid<T: DeserializeOwned + PartialEq + Debug + Send>(name: &'static str, _valid: &[&str], want: &str, body: &str, r: &mut Report) {
             if name == want && reference_value::<T>("json", body.as_bytes()).is_none() {
